@@ -14,7 +14,8 @@ import types
 import z3
 
 from . import sym
-from .sym import (SInt, SBool, SBytes, SStr, SFloat, SOpaque, SObj, SExc, Chunk,
+from .loops import JoinList
+from .sym import (SInt, SBool, SBytes, SStr, SFloat, SOpaque, SObj, SExc, SCond, Chunk,
                   Raised, OutOfSubset, EngineError, I, B, mk_int, mk_bool)
 
 _SRC_CACHE = {}
@@ -62,6 +63,13 @@ class BoundMethod:
     def __init__(self, fn, self_):
         self.fn = fn
         self.self = self_
+
+
+class _JoinAppend:
+    __slots__ = ('target',)
+
+    def __init__(self, target):
+        self.target = target
 
 
 class Closure:
@@ -143,6 +151,7 @@ class Interp:
         self.called = []          # contracts used (for evidence)
         from . import lib
         self.lib = lib.Library(self)
+        state.len_hook = lambda obj: self.lib.b_len(obj)
 
     # ------------------------------------------------------------ calls
     def call(self, f, args, kwargs=None):
@@ -152,6 +161,11 @@ class Interp:
             return self.call(f.fn, [f.self] + list(args), kwargs)
         if isinstance(f, Closure):
             return self.run_lambda(f, args)
+        if isinstance(f, _JoinAppend):
+            if not sym.is_byteslike(args[0]):
+                raise OutOfSubset('append of a non-bytes value to an abstract list')
+            f.target.segs.extend(st.to_rope(args[0]).segs)
+            return None
         if self.registry is not None and not isinstance(f, types.FunctionType) and callable(f) \
                 and getattr(f, '__wrapped__', None) is not None and self.registry.has(f):
             # a wrapped pamqp function (e.g. a cache decorator): callers still see the contract
@@ -560,7 +574,7 @@ class Interp:
 
     def binop(self, op, a, b):
         st = self.st
-        if not sym.is_symbolic(a) and not sym.is_symbolic(b):
+        if not sym.is_symbolic(a) and not sym.is_symbolic(b) and not isinstance(a, JoinList) and not isinstance(b, JoinList):
             try:
                 return _CONCRETE_BINOPS[op](a, b)
             except KeyError:
@@ -571,6 +585,18 @@ class Interp:
         if ai and bi:
             return self.lib.int_binop(op, a, b)
         if op is ast.Add:
+            if isinstance(a, (list, JoinList)) and isinstance(b, (list, JoinList)) and \
+                    (isinstance(a, JoinList) or isinstance(b, JoinList)):
+                segs = []
+                for part in (a, b):
+                    if isinstance(part, JoinList):
+                        segs.extend(part.segs)
+                    else:
+                        for item in part:
+                            if not sym.is_byteslike(item):
+                                raise OutOfSubset('abstract list mixed with non-bytes items')
+                            segs.extend(st.to_rope(item).segs)
+                return JoinList(segs)
             if sym.is_byteslike(a) and sym.is_byteslike(b):
                 return st.rope_concat(a, b)
             if isinstance(a, list) and isinstance(b, list):
@@ -845,7 +871,7 @@ class Interp:
     def getattr(self, obj, name, default=None, has_default=False):
         if isinstance(obj, SObj):
             if name in obj.attrs:
-                return obj.attrs[name]
+                return self.resolve(obj.attrs[name])
             if name == '__class__':
                 return obj.cls
             raw = self.class_lookup(obj.cls, name)
@@ -876,6 +902,10 @@ class Interp:
             if isinstance(raw, staticmethod):
                 return raw.__func__
             return raw
+        if isinstance(obj, JoinList):
+            if name == 'append':
+                return _JoinAppend(obj)
+            raise OutOfSubset('attribute %s of an abstract list' % name)
         if isinstance(obj, SExc):
             if name == 'args':
                 return obj.args
@@ -888,6 +918,12 @@ class Interp:
             if has_default:
                 return default
             raise Raised(AttributeError, (name,))
+
+    def resolve(self, v):
+        """cond ? a : b  ->  a or b, deciding cond on this path."""
+        while isinstance(v, SCond):
+            v = v.a if self.st.branch(v.cond, 'optional-value') else v.b
+        return v
 
     def setattr(self, obj, name, v):
         if isinstance(obj, SObj):
